@@ -10,3 +10,7 @@ func attachHook(h any) {}
 func siteString(i int) string { return "uninstrumented" }
 
 func instrInfo() map[string]any { return map[string]any{"instrumented": false} }
+
+func snapshotGlobals()               {}
+func restoreGlobals()                {}
+func globalPointers() map[string]any { return nil }
